@@ -21,11 +21,13 @@ from ..partition import MiniInterp, Opaque, FRESH
 LEVEL = "other"
 TECHNIQUE = ("stream-filter effect analysis by branch partition over token types and over the URI predicates (exhaustive "
              "enumeration of predicate outcomes, no solver); CFG dominance of allow-list tests over every keeping statement")
-CLAIM = ("The sanitizer's gates are placed so that, on every path, a tag token leaves only as an allow-listed tag or as "
-         "inert text, non-allow-listed attributes are removed before anything else and never re-added, a URI attribute "
-         "survives only under the allowed-scheme / allowed-content-type predicates evaluated on the control-stripped, "
-         "lower-cased value, configured (not default) lists are the ones consulted, and every kept CSS declaration passed an "
-         "allow-list test after url() stripping. Holds for custom lists as well because the lists are symbolic.")
+CLAIM = ("The sanitizer's gates are placed so that, on every path, a tag token leaves only as an allow-listed "
+         'tag or as inert text, non-allow-listed attributes are removed before anything else and never re- '
+         'added, a URI attribute survives only under the allowed-scheme / allowed-content-type predicates '
+         'evaluated on the control-stripped, lower-cased value, configured (not default) lists are the ones '
+         'consulted, and every kept CSS declaration passed an allow-list test after url() stripping. Holds for '
+         'custom lists as well because the lists are symbolic. The stripped class covers white space and all '
+         'control characters (general category Cc); every stripping substitution is global.')
 NOT_DECIDED = ("whether the URL normalisation matches what browsers do; regular-language claims about the CSS gauntlet "
                "('never url()' holds only up to the stripper's pattern); the contents of the allow-lists themselves.")
 MODULES = ["filters/sanitizer.py", "filters/base.py", "constants.py"]
